@@ -38,11 +38,13 @@
 (* of the two a one-component std name means when a project file of that   *)
 (* name exists is not documented anywhere: such texts are never written.   *)
 (*                                                                         *)
-(* Out of the universe on purpose: `from` of a name that is itself only    *)
-(* imported (tests/import/faulty_from_circular.sy documents an error),     *)
-(* a.x where a has `from b use x` (re-export), `use /` without alias, the  *)
-(* same file under one implicit name by two path texts, one-component      *)
-(* path texts that are std module names.                                   *)
+(* Out of THIS universe on purpose: `from` of a name that is itself only   *)
+(* imported (tests/import/faulty_from_circular.sy documents an error) and  *)
+(* a.x where a has `from b use x` (re-export) - both are the subject of    *)
+(* SyltLayers (module order, names handed on by exporting files); out of   *)
+(* every universe: `use /` without alias, the same file under one implicit *)
+(* name by two path texts, one-component path texts that are std module    *)
+(* names.                                                                  *)
 (***************************************************************************)
 EXTENDS SyltSem, SyltAst
 
